@@ -176,7 +176,8 @@ def run_exec_shards(seed, shards, npat, nhay, budget, corpus=None, feat="default
         cmds.append(c)
     summary, mism, pv, errs = {}, [], [], []
     def one(c):
-        return sh("set -o pipefail; " + c, timeout)
+        # the extracted model recurses as deep as loop counts and haystacks are long: give the driver a large stack
+        return sh("set -o pipefail; ulimit -s 1000000; " + c, timeout)
     with concurrent.futures.ThreadPoolExecutor(max_workers=NCPU) as ex:
         for rc, out in ex.map(one, cmds):
             got = False
@@ -224,7 +225,7 @@ def run_cases(lines, budget, feat="default"):
     d = os.path.join(BUILD, "tmp"); os.makedirs(d, exist_ok=True)
     f = os.path.join(d, "cases_%d.txt" % os.getpid())
     open(f, "w").write("\n".join("\t".join(l) for l in lines) + "\n")
-    rc, out = sh("set -o pipefail; %s cases %d %s | %s exec %d" % (harness_bin(feat), budget, f, os.path.join(BUILD, "extract", "driver"), budget), 600)
+    rc, out = sh("set -o pipefail; ulimit -s 1000000; %s cases %d %s | %s exec %d" % (harness_bin(feat), budget, f, os.path.join(BUILD, "extract", "driver"), budget), 600)
     os.remove(f)
     mism = [l for l in out.split("\n") if l.startswith("MISMATCH")]
     pv = [l for l in out.split("\n") if l.startswith("PROPVIOL")]
